@@ -197,12 +197,26 @@ func c01(c *an.Ctx) {
 					if clears.Len() > 0 {
 						g.Guarded(r, clears, "the apply error is cleared only for SeriesLimited", an.AtomLike(`^errno\.Equal\(.*,errno\.SeriesLimited\)$`, true))
 					}
-					bad := g.Find(an.MReturn("of something else than the apply error", func(f *an.Fn, rs *ast.ReturnStmt) bool {
-						return len(rs.Results) != 1 || refObjOf(f, rs.Results[0]) != errObj
-					}))
 					one := &an.Sites{F: g, Desc: "writeWalBuffer", List: []an.Site{s}}
-					if bad.Len() > 0 {
-						g.NeverAfter(r, one, bad, "after the record was applied the callback returns the apply error itself")
+					seriesLimited := an.AtomLike(`^errno\.Equal\(.*,errno\.SeriesLimited\)$`, true)
+					other := g.Find(an.MReturn("of something else than the apply error", func(f *an.Fn, rs *ast.ReturnStmt) bool {
+						return len(rs.Results) != 1 || (refObjOf(f, rs.Results[0]) != errObj && !an.IsNilIdent(f.Info, rs.Results[0]))
+					}))
+					if other.Len() > 0 {
+						g.NeverAfter(r, one, other, "after the record was applied the callback returns the apply error itself")
+					}
+					// `return nil` after the apply: only where the error is known to be nil or SeriesLimited
+					nilRets := g.Find(an.MReturn("nil", func(f *an.Fn, rs *ast.ReturnStmt) bool {
+						return len(rs.Results) == 1 && an.IsNilIdent(f.Info, rs.Results[0])
+					}))
+					var after []an.Site
+					for _, nr := range nilRets.List {
+						if g.FPath(g.G.Vs[s.V].Succ, nr.V, nil, nil) != nil {
+							after = append(after, nr)
+						}
+					}
+					if len(after) > 0 {
+						g.Guarded(r, &an.Sites{F: g, Desc: "return nil after the apply", List: after}, "nil is returned after the apply only for SeriesLimited or a nil apply error", seriesLimited, an.AtomLike(`(^nil==|==nil$)`, true))
 					}
 				}
 			}
